@@ -180,16 +180,45 @@ pub fn classify_write(sector: u64, data: &[u8], version: u32, total_blocks: u64,
 pub struct ConcreteDev {
     pub durable: Vec<u8>,
     pub pending: Vec<(u64, Vec<u8>)>,
+    /// per pending write, per block: a tear of this block INSIDE the 4 KiB block (512-byte sectors) would be
+    /// observable - a record head whose first sector and whose remaining sectors both differ from what the block
+    /// held before, or a retirement marker written over such a head
+    pub tear: Vec<Vec<bool>>,
 }
 
 impl ConcreteDev {
     pub fn new(size: usize) -> Self {
-        Self { durable: vec![0; size], pending: Vec::new() }
+        Self { durable: vec![0; size], pending: Vec::new(), tear: Vec::new() }
     }
     pub fn write(&mut self, sector: u64, data: &[u8]) {
+        if self.tear.len() > self.pending.len() { self.tear.truncate(self.pending.len()); }
+        while self.tear.len() < self.pending.len() { self.tear.push(Vec::new()); }
+        let mut flags = Vec::new();
+        if sector >= L::DATA_START {
+            let all: Vec<(usize, usize)> = self.units();
+            let view = self.image(&all);
+            for o in 0..data.len() / L::BLOCK {
+                let off = (sector as usize + o) * L::BLOCK;
+                let new = &data[o * L::BLOCK..(o + 1) * L::BLOCK];
+                let mut f = false;
+                if off + L::BLOCK <= view.len() {
+                    let before = &view[off..off + L::BLOCK];
+                    let differs = before[..512] != new[..512] && before[512..] != new[512..];
+                    let new_marker = new.starts_with(L::TAG);
+                    let before_head = !before.starts_with(L::TAG) && before[..32].iter().any(|b| *b != 0);
+                    f = differs && ((o == 0 && !new_marker) || (new_marker && before_head));
+                }
+                flags.push(f);
+            }
+        }
+        self.tear.push(flags);
         self.pending.push((sector, data.to_vec()));
     }
+    pub fn last_tear_flags(&self) -> Vec<bool> {
+        self.tear.last().cloned().unwrap_or_default()
+    }
     pub fn fsync(&mut self) {
+        self.tear.clear();
         for (s, d) in std::mem::take(&mut self.pending) {
             let off = s as usize * L::BLOCK;
             if off + d.len() <= self.durable.len() {
@@ -217,8 +246,15 @@ impl ConcreteDev {
     }
     /// Journal-slot writes of `subset` that can tear: the image is longer than one 512-byte sector.
     pub fn tearable(&self, subset: &[(usize, usize)]) -> Vec<(usize, usize)> {
-        subset.iter().copied().filter(|(i, _)| {
+        let mut data_torn = 0;
+        subset.iter().copied().filter(|(i, o)| {
             let (s, d) = &self.pending[*i - 1];
+            if *s >= L::DATA_START {
+                // data blocks (sector-granular tearing inside a block), at most three per crash image set
+                let f = self.tear.get(*i - 1).and_then(|v| v.get(*o)).copied().unwrap_or(false);
+                if f { data_torn += 1; }
+                return f && data_torn <= 3;
+            }
             *s >= L::JOURNAL_START as u64 && *s < L::META_BACKUP as u64 && d.len() >= 32
                 && u32::from_le_bytes(d[28..32].try_into().unwrap()) >= 60
         }).collect()
@@ -232,7 +268,16 @@ impl ConcreteDev {
                     if subset.contains(&(i + 1, o)) {
                         let off = (*s as usize + o) * L::BLOCK;
                         if off + L::BLOCK <= img.len() {
-                            img[off..off + L::BLOCK].copy_from_slice(&d[o * L::BLOCK..(o + 1) * L::BLOCK]);
+                            let new = &d[o * L::BLOCK..(o + 1) * L::BLOCK];
+                            if torn.contains(&(i + 1, o)) {
+                                // torn inside the block: a record head keeps only its first sector (header and token
+                                // land, the rest does not); a marker written over a head lands everywhere BUT in the
+                                // first sector (the old header survives over zeroed contents)
+                                if new.starts_with(L::TAG) { img[off + 512..off + L::BLOCK].copy_from_slice(&new[512..]); }
+                                else { img[off..off + 512].copy_from_slice(&new[..512]); }
+                            } else {
+                                img[off..off + L::BLOCK].copy_from_slice(new);
+                            }
                         }
                     }
                 }
